@@ -1,6 +1,360 @@
 package main
 
-import "strings"
+import (
+	"encoding/json"
+	"fmt"
+	"math"
+	"os"
+	"path/filepath"
+	"reflect"
+	"regexp/syntax"
+	"sort"
+	"strings"
+	"unicode/utf8"
+
+	"go.flow.arcalot.io/pluginsdk/schema"
+)
 
 // writeExtraTables is extended as more of the SDK's tables enter the model.
 func writeExtraTables(b *strings.Builder) {}
+
+// ---------------------------------------------------------------------------------------------
+// The meta-schema table (schema/schema_schema.go), translated as DATA (DESIGN 2.4, C09_accepted):
+// the SDK's meta-schema describes itself, so `DescribeScope().SelfSerialize()` IS the 1300-line
+// table in the wire format of descriptions.  It is printed as a Gallina `gval`; Schema/MetaTable.v
+// turns it into a `schema` of the shared syntax with the model's own reader (`rebuild`), and the
+// theorems of Proofs/C09Acc*.v are about that term - re-dumped, hence re-proved, on every run.
+// The file is Generated/MetaDesc.v next to Tables.v (written only when changed).
+// ---------------------------------------------------------------------------------------------
+
+type coqValErr struct{ what string }
+
+// coqVal renders a value of the description format as a Gallina gval.
+func coqVal(b *strings.Builder, v any, ind int) {
+	if v == nil {
+		b.WriteString("VNil")
+		return
+	}
+	rv := reflect.ValueOf(v)
+	pad := strings.Repeat(" ", ind)
+	switch rv.Kind() {
+	case reflect.String:
+		fmt.Fprintf(b, "(vstr %s)", coqStr(rv.String()))
+	case reflect.Bool:
+		fmt.Fprintf(b, "(vbool %v)", rv.Bool())
+	case reflect.Int64:
+		if rv.Type() != reflect.TypeOf(int64(0)) {
+			panic(coqValErr{"named integer " + rv.Type().String()})
+		}
+		fmt.Fprintf(b, "(vi64 (%d))", rv.Int())
+	case reflect.Float64:
+		f := rv.Float()
+		if f != math.Trunc(f) || math.Abs(f) > 1e15 || (f == 0 && math.Signbit(f)) {
+			panic(coqValErr{fmt.Sprintf("float %v", f)})
+		}
+		fmt.Fprintf(b, "(vf64 (fl_of_Z b64 (%d)))", int64(f))
+	case reflect.Slice:
+		if rv.Type() != reflect.TypeOf([]any(nil)) {
+			panic(coqValErr{"slice type " + rv.Type().String()})
+		}
+		b.WriteString("(VSlice t_any_slice false [")
+		for i := 0; i < rv.Len(); i++ {
+			if i > 0 {
+				b.WriteString("; ")
+			}
+			coqVal(b, rv.Index(i).Interface(), ind+1)
+		}
+		b.WriteString("])")
+	case reflect.Map:
+		var ty string
+		switch rv.Type() {
+		case reflect.TypeOf(map[string]any(nil)):
+			ty = "t_str_map"
+		case reflect.TypeOf(map[any]any(nil)):
+			ty = "t_any_map"
+		default:
+			panic(coqValErr{"map type " + rv.Type().String()})
+		}
+		type ent struct {
+			rank int
+			s    string
+			i    int64
+			k, v any
+		}
+		var es []ent
+		it := rv.MapRange()
+		for it.Next() {
+			k := it.Key().Interface()
+			e := ent{k: k, v: it.Value().Interface()}
+			switch kk := k.(type) {
+			case string:
+				e.rank, e.s = 1, kk
+			case int64:
+				e.rank, e.i = 0, kk
+			default:
+				panic(coqValErr{fmt.Sprintf("map key %T", k)})
+			}
+			es = append(es, e)
+		}
+		sort.Slice(es, func(a, c int) bool {
+			if es[a].rank != es[c].rank {
+				return es[a].rank < es[c].rank
+			}
+			if es[a].rank == 0 {
+				return es[a].i < es[c].i
+			}
+			return es[a].s < es[c].s
+		})
+		fmt.Fprintf(b, "(VMap %s false [", ty)
+		for i, e := range es {
+			if i > 0 {
+				b.WriteString(";")
+			}
+			b.WriteString("\n" + pad + " (")
+			coqVal(b, e.k, ind+1)
+			b.WriteString(", ")
+			coqVal(b, e.v, ind+1)
+			b.WriteString(")")
+		}
+		b.WriteString("])")
+	default:
+		panic(coqValErr{"kind " + rv.Kind().String()})
+	}
+}
+
+// collectTexts gathers every string found under the given field name of a map[string]any node.
+func collectTexts(v any, field string, out map[string]bool) {
+	switch x := v.(type) {
+	case map[string]any:
+		for k, c := range x {
+			if s, ok := c.(string); ok && k == field {
+				out[s] = true
+			}
+			collectTexts(c, field, out)
+		}
+	case map[any]any:
+		for _, c := range x {
+			collectTexts(c, field, out)
+		}
+	case []any:
+		for _, c := range x {
+			collectTexts(c, field, out)
+		}
+	}
+}
+
+// coqRe translates a regular expression, parsed by Go's own regexp/syntax, into the model's `re`
+// (Schema/Regex.v, byte semantics).  ok=false: outside the supported subset.
+func coqRe(r *syntax.Regexp) (string, bool) {
+	chr := func(c byte) string { return fmt.Sprintf("(Chr (chrz %d))", c) }
+	cat := func(parts []string, unit, op string) string {
+		if len(parts) == 0 {
+			return unit
+		}
+		res := parts[len(parts)-1]
+		for i := len(parts) - 2; i >= 0; i-- {
+			res = fmt.Sprintf("(%s %s %s)", op, parts[i], res)
+		}
+		return res
+	}
+	subs := func() ([]string, bool) {
+		var ps []string
+		for _, s := range r.Sub {
+			t, ok := coqRe(s)
+			if !ok {
+				return nil, false
+			}
+			ps = append(ps, t)
+		}
+		return ps, true
+	}
+	switch r.Op {
+	case syntax.OpEmptyMatch:
+		return "Eps", true
+	case syntax.OpLiteral:
+		if r.Flags&syntax.FoldCase != 0 {
+			return "", false
+		}
+		var ps []string
+		for _, ru := range r.Rune {
+			var buf [4]byte
+			n := utf8.EncodeRune(buf[:], ru)
+			for i := 0; i < n; i++ {
+				ps = append(ps, chr(buf[i]))
+			}
+		}
+		return cat(ps, "Eps", "Cat"), true
+	case syntax.OpCharClass:
+		var rs []string
+		for i := 0; i+1 < len(r.Rune); i += 2 {
+			lo, hi := r.Rune[i], r.Rune[i+1]
+			if lo > 127 {
+				if lo == 128 && hi == utf8.MaxRune { // the tail of a negated ASCII class: every non-ASCII byte
+					rs = append(rs, "(chrz 128, chrz 255)")
+					continue
+				}
+				return "", false
+			}
+			if hi > 127 {
+				if hi != utf8.MaxRune {
+					return "", false
+				}
+				hi = 255
+			}
+			rs = append(rs, fmt.Sprintf("(chrz %d, chrz %d)", lo, hi))
+		}
+		return "(Cls false [" + strings.Join(rs, "; ") + "])", true
+	case syntax.OpAnyCharNotNL:
+		return "AnyC", true
+	case syntax.OpAnyChar:
+		return "(Cls true [])", true
+	case syntax.OpBeginText:
+		return "Bol", true
+	case syntax.OpEndText:
+		return "Eol", true
+	case syntax.OpCapture:
+		ps, ok := subs()
+		if !ok {
+			return "", false
+		}
+		return fmt.Sprintf("(Grp %d %s)", r.Cap, ps[0]), true
+	case syntax.OpStar, syntax.OpPlus, syntax.OpQuest:
+		if r.Flags&syntax.NonGreedy != 0 {
+			return "", false
+		}
+		ps, ok := subs()
+		if !ok {
+			return "", false
+		}
+		switch r.Op {
+		case syntax.OpStar:
+			return fmt.Sprintf("(Star %s)", ps[0]), true
+		case syntax.OpPlus:
+			return fmt.Sprintf("(Cat %s (Star %s))", ps[0], ps[0]), true
+		default:
+			return fmt.Sprintf("(Alt %s Eps)", ps[0]), true
+		}
+	case syntax.OpConcat:
+		ps, ok := subs()
+		if !ok {
+			return "", false
+		}
+		return cat(ps, "Eps", "Cat"), true
+	case syntax.OpAlternate:
+		ps, ok := subs()
+		if !ok {
+			return "", false
+		}
+		return cat(ps, "Eps", "Alt"), true
+	}
+	return "", false
+}
+
+func sortedSet(m map[string]bool) []string {
+	var ks []string
+	for k := range m {
+		ks = append(ks, k)
+	}
+	sort.Strings(ks)
+	return ks
+}
+
+func writeMetaTable(path string) {
+	var b strings.Builder
+	b.WriteString("(* GENERATED by `harness tables` from the SDK built from /repo's working tree: the meta-schema\n" +
+		"   (schema/schema_schema.go) as it describes itself.  Do not edit. *)\n")
+	b.WriteString("From Verif Require Import Base.Prelude Base.Str Base.Float Base.GoVal Schema.Regex.\nOpen Scope string_scope.\nOpen Scope Z_scope.\n\n")
+	b.WriteString("Definition mt_bytes_str (l : list Z) : string := unchars (map chrz l).\n\n")
+	scopes := []struct {
+		name string
+		s    *schema.ScopeSchema
+	}{
+		{"meta_scope_description", schema.DescribeScope()},
+		{"meta_schema_description", schema.DescribeSchema()},
+		{"meta_stepoutput_description", schema.DescribeStepOutput()},
+	}
+	pats, dflts := map[string]bool{}, map[string]bool{}
+	for _, sc := range scopes {
+		d, err := sc.s.SelfSerialize()
+		if err != nil {
+			fmt.Fprintf(os.Stderr, "the meta-schema cannot describe itself (%s): %v\n", sc.name, err)
+			os.Exit(1)
+		}
+		collectTexts(d, "pattern", pats)
+		collectTexts(d, "default", dflts)
+		fmt.Fprintf(&b, "Definition %s : gval :=\n ", sc.name)
+		coqVal(&b, d, 1)
+		b.WriteString(".\n\n")
+	}
+	// regexp.Compile on the pattern texts of the table, through Go's own parser
+	b.WriteString("(* regexp/syntax.Parse(src, Perl) of every pattern text in the table, in the model's `re` *)\n")
+	b.WriteString("Definition meta_patterns : list (string * re) :=\n  [")
+	first := true
+	for _, src := range sortedSet(pats) {
+		r, err := syntax.Parse(src, syntax.Perl)
+		if err != nil {
+			continue
+		}
+		t, ok := coqRe(r)
+		if !ok {
+			continue
+		}
+		if !first {
+			b.WriteString(";\n   ")
+		}
+		first = false
+		fmt.Fprintf(&b, "(%s, %s)", coqStr(src), t)
+	}
+	b.WriteString("].\n\n")
+	// encoding/json on the default texts of the table (and on their quoted form, which the SDK
+	// retries for string-typed properties)
+	b.WriteString("(* encoding/json into `any` of every default text in the table (None: not JSON) *)\n")
+	b.WriteString("Definition meta_json : list (string * option gval) :=\n  [")
+	first = true
+	texts := map[string]bool{}
+	for t := range dflts {
+		texts[t] = true
+		texts[`"`+t+`"`] = true
+	}
+	for _, txt := range sortedSet(texts) {
+		if !first {
+			b.WriteString(";\n   ")
+		}
+		first = false
+		var v any
+		entry := "None"
+		if err := json.Unmarshal([]byte(txt), &v); err == nil {
+			func() {
+				defer func() {
+					if r := recover(); r != nil {
+						if _, mine := r.(coqValErr); !mine {
+							panic(r)
+						}
+						entry = "None"
+					}
+				}()
+				var vb strings.Builder
+				coqVal(&vb, v, 4)
+				entry = "(Some " + vb.String() + ")"
+			}()
+		}
+		fmt.Fprintf(&b, "(%s, %s)", coqStr(txt), entry)
+	}
+	b.WriteString("].\n")
+
+	content := strings.ReplaceAll(b.String(), "bytes_str [", "mt_bytes_str [")
+	content = strings.ReplaceAll(content, "mt_mt_bytes_str", "mt_bytes_str")
+	old, err := os.ReadFile(path)
+	if err == nil && string(old) == content {
+		fmt.Println("meta table unchanged")
+		return
+	}
+	if err := os.WriteFile(path, []byte(content), 0o644); err != nil {
+		panic(err)
+	}
+	fmt.Println("meta table written")
+}
+
+func metaTablePath(tablesPath string) string {
+	return filepath.Join(filepath.Dir(tablesPath), "MetaDesc.v")
+}
